@@ -2,9 +2,10 @@
 
 (M) TLC checks specs/clusterfsm/ClusterFSM.tla (every apply* command, Snapshot/Restore with the
     quarantine rules and all secondary indexes, as written) per command family, exhaustively to a
-    small depth, for key uniqueness, index agreement, restore fidelity on clean states, restore
-    idempotence and batch all-or-nothing; the two model-level invariants that the code as written
-    does not satisfy (IndexAgreement, RestoreFidelity) are probed separately.
+    small depth, for key uniqueness, index agreement, restore fidelity (every reachable state),
+    restore idempotence and batch all-or-nothing; the model of the code as first read (AsWritten =
+    TRUE: UpdateToken name unvalidated, UpdateFile skipping filesByDB[""]) is a negative control that
+    TLC must reject (NegCtl_*.cfg).
 (G) every transition TLC explores (plus seeded simulated long histories) is replayed into real
     ClusterFSM instances: node A vs node B, Restore(Persist(Snapshot)) at every prefix + suffix,
     indexes vs recomputation from the primary maps, batches vs single ops.  Verdicts come from
@@ -19,7 +20,7 @@ LEVEL = "model_checking"
 def run(ctx):
     q = ctx.quick()
     sims = [("Sim_auth.cfg", 200 if q else 1200, 20), ("Sim_node.cfg", 100 if q else 600, 12)]
-    sp, n = lib.generate(ctx, ["node", "file", "auth", "deep"], sims, ["IndexAgreement", "RestoreFidelity"])
+    sp, n = lib.generate(ctx, ["node", "file", "auth", "deep"], sims, ["NegCtl_IndexAgreement", "NegCtl_RestoreFidelity"])
     r = lib.replay(ctx, sp, n)
     lib.need(r, ["AddNode", "PromoteWriter", "RegisterFile", "UpdateFile", "DeleteFile", "BatchFileOps", "CreateToken", "UpdateToken",
                  "RotateToken", "DeleteToken", "CreateOrg", "CreateTeam", "CreateRole", "CreateMPerm", "AddTokenToTeam", "DeleteOrg",
